@@ -701,6 +701,11 @@ def extra_scenarios(tier, base):
         target = gen.gen_target(rng, triples, allow_shape_map=False)
         options = gen.gen_options(rng)
         which = ["source_eio", "sink_enospc", "endpoint_outage"][h % 3]
+        if which == "source_eio" and triples:
+            # early in the file: a value whose byte length and character length differ by more than a line
+            # (a reader that resumes after a fault must not mix the two up)
+            first = [t for t in triples if t[1][1] == gen.RDF_TYPE][:1] or triples[:1]
+            triples = [(first[0][0], gen.iri(gen.EX + "label"), gen.lit("\u6771\u4eac\u90fd" * 30, gen.XSD + "string"))] + list(triples)
         src = {"source_eio": "file", "sink_enospc": "raw", "endpoint_outage": "endpoint"}[which]
         n_pos = {"source_eio": 2 * len(triples) + 1, "sink_enospc": 30, "endpoint_outage": 4 * 5 + 4}[which]
         for pos in range(n_pos):
